@@ -335,6 +335,13 @@ func GenUciSession(prop string, seed uint64) *Scenario {
 			add(gapAfterResult(rng), "send", "ucinewgame")
 			firstGap = int64(rng.Range(0, 300))
 		}
+		if s > 0 && rng.Intn(100) < 6 {
+			// the hash size is changed between two searches, including the
+			// lowest announced value (min 0: the engine's default size)
+			v := []int{0, 0, 1, 3, 8}[rng.Intn(5)]
+			add(gapAfterResult(rng), "send", fmt.Sprintf("setoption name Hash value %d", v))
+			firstGap = int64(rng.Range(0, 300))
+		}
 		posCmd, root := genPosition(rng, pf.Terminal)
 		if len(pool) > 0 {
 			k := rng.Intn(len(pool))
